@@ -10,13 +10,35 @@ COMMON_NOTE = ("Trusted: Coq 8.16.1 kernel (+vm_compute, no native_compute); no 
                "/repo by the per-run correspondence (extracted model via ExtrOcamlBasic vs the real psec on the same inputs).")
 
 # id -> (claimed, text, technique, extra note)
+TECH = "Coq proof (induction, lia, finite sweeps by vm_compute lifted with forallb_forall) over a hand-written Gallina model + extracted-model/implementation correspondence on every run"
 CLAIMS = {
+ "C07": ("Theorems for every lawful cipher pair, key, message, padding method and length: generate_cbc_mac = leftmost bytes of ISO 9797-1 "
+         "algorithm 1 over the padded message (block size 8/16), generate_retail_mac = algorithm 3 (proved through the implementation's "
+         "decrypt-with-IV / continued-chain trick), error cases, single-block EDE and splice corollaries, instantiated for Triple DES built "
+         "from any lawful DES. Correspondence: all key sizes x every length residue x paddings x lengths against single-block OpenSSL ECB + hand chaining.", TECH, ""),
  "C08": ("Theorems over the Gallina model of pad_iso_1/2/3 for every message and every block size > 0: exact shape "
          "(data ++ least number of zeros / 0x80 + least zeros / big-endian bit-length block + method 1), minimality, "
          "positive multiple, prefix, injectivity of methods 2 and 3; the model is tied to /repo by differential "
-         "correspondence over every length residue and adversarial tails on each run.",
-         "Coq proof (induction, lia) over hand-written model + extracted-model/implementation correspondence",
-         ""),
+         "correspondence over every length residue and adversarial tails on each run.", TECH, ""),
+ "C09": ("Theorem: for every lawful 8-byte-block cipher with TDES key sizes (and for Triple DES over any lawful DES), every 16-byte CVK, PAN <= 19 digits, "
+         "4-digit expiry, 3-digit service code: generate_cvv = the nibble-level standard CVV (Spec/CardValues.v), exactly 3 decimal digits; domain "
+         "violations give ValueError; the pinned pre-fix behaviour is refuted by a machine-checked witness (C09_legacy_refuted). Correspondence incl. "
+         "directed search for the ~1/12000 inputs that need the second decimalisation pass and the recorded real-DES witness.", TECH,
+         "Genuine defect repaired in /repo by commit 79e6d68 (fix:), recorded as 'fixed:' in known_findings.txt."),
+ "C10": ("Theorem: generate_visa_pvv = standard PVV (TSP, encrypt, decimal digits first then A-F minus ten), always 4 decimal digits, for every lawful "
+         "cipher / PVK size / index / PIN / PAN >= 12; domain theorem. Correspondence incl. directed second-pass inputs, all PVK sizes, PAN lengths 12..24.", TECH, ""),
+ "C11": ("Theorems: IBM 3624 PIN = natural PIN + offset mod 10, offset = PIN - natural PIN mod 10 (Spec/IBM3624.v), output length = input length, decimal, "
+         "offset(pin(o)) = o and pin(offset(p)) = p, pad-case equivalence, window characterisation, domain/no-crash theorems, for every lawful cipher. "
+         "Correspondence over all 22 pad characters, windows incl. > 16 and empty, lengths 4..16.", TECH,
+         "An empty validation window is accepted at any offset (documented boundary reading, DESIGN.md section 9)."),
+ "C19": ("Theorems for every lawful cipher: ECB/CBC decrypt(encrypt(x)) = x and conversely, length and byte-range preservation, rejection iff empty or "
+         "non-multiple, never a Crash, ECB blockwise and CBC textbook chaining of the model's wrappers, KCV = leftmost bytes of E(0^8); instantiated for Triple DES. "
+         "That OpenSSL's ECB/CBC behave as the model defines them (nothing buffered on update) is what the per-run correspondence measures against "
+         "single-block OpenSSL ECB + hand chaining.", TECH, "OpenSSL mode behaviour is modelled (Cipher/Cipher.v), not verified."),
+ "C20": ("Theorems: adjust_key_parity (same length, every byte odd parity, only LSB may change, idempotent) for every key; apply_key_variant exact, involutive, "
+         "rejects outside 8/16/24 x 0..31; xor through host-order integers = bytewise xor with surplus mask ignored; odd_parity = bit-count parity for every v < 2^32 "
+         "(test-bit algebra + 16-entry table). Correspondence: all 256 byte values at key positions, all 32 variants, xor lengths 0..64, 16-bit and random 32-bit parity.", TECH,
+         "tools.xor equivalence assumes a little-endian host (asserted at run time)."),
 }
 
 checks = []
